@@ -258,6 +258,21 @@ func e3RunKill(sc e3Scenario, K int, variant string, traceFile string) (res e3Ki
 	if loc, rem := scn.MaxTXID(filepath.Join(s.Dir, ".db-litestream"), 0), s.RemoteMaxL0(); loc != rem {
 		res.Problems = append(res.Problems, &scn.Problem{Kind: "ack-without-advance", Detail: fmt.Sprintf("after restart: local L0 max %d remote %d", loc, rem)})
 	}
+	// The restarted process goes on with its periodic duties: a snapshot and a compaction taken right after
+	// the restart must describe the state they advertise (restore starts from the newest snapshot).
+	for _, op := range []string{"FSNAP", "CMP:1"} {
+		if o := s.Do(op); o.Err != nil {
+			res.Problems = append(res.Problems, &scn.Problem{Kind: "restart-" + strings.ToLower(opName(op)) + "-failed", Detail: o.String()})
+		}
+		pr, oerr := s.AckOracle(false)
+		if oerr != nil {
+			res.Harness = oerr
+			return
+		}
+		if pr != nil {
+			res.Problems = append(res.Problems, &scn.Problem{Kind: pr.Kind + "-after-restart-" + strings.ToLower(opName(op)), Detail: pr.Detail})
+		}
+	}
 	if o := s.Do("CL"); o.Err != nil {
 		res.Problems = append(res.Problems, &scn.Problem{Kind: "restart-close-failed", Detail: o.String()})
 	}
